@@ -74,12 +74,39 @@ fn flush_all_case(c: &(u64, bool), obs: &mut Obs) -> CaseResult {
     ensure_eq!(writes, vec![cr3], "flush_all must reload CR3 with its current value {:#x}", cr3);
     MapperFlushAll::new().ignore();
     ensure!(cpu().log_len == 0, "ignore() must not flush");
+    // "its *current* value": like a kernel that looks at the root, switches the address space and flushes
+    // inside one function; the reload must use the value CR3 holds at the flush, not one read earlier (a CR3
+    // read that the optimiser may merge with an earlier one would write the old root back)
+    let cr3_b = (cr3 ^ 0x0000_0012_3456_7000 ^ ((cr3 >> 7) & 0xfff)) & 0x000f_ffff_ffff_ffff;
+    let seen = switch_then_flush(cr3_b, via_token);
+    let log = cp.take_log();
+    let writes: Vec<u64> = log.iter().filter(|t| t.op == Op::MovToCr).map(|t| t.b).collect();
+    ensure_eq!(seen, cr3, "Cr3::read_raw before the root switch (CR3 held {:#x})", cr3);
+    ensure!(log.iter().all(|t| (t.op == Op::MovFromCr || t.op == Op::MovToCr) && t.a == 3), "root switch + flush_all touched something other than CR3: {:x?}", log);
+    ensure_eq!(writes, vec![cr3_b, cr3_b], "read CR3 ({:#x}), switch the root to {:#x}, flush_all: the flush must reload CR3 with the value it holds then; values written to CR3", cr3, cr3_b);
+    ensure_eq!(cp.cr[3], cr3_b, "CR3 after root switch + flush_all");
+    obs.label("root-switch-before-flush_all");
     if cr3 & 0xfe7 != 0 {
         obs.label("cr3-with-pcid-bits");
         obs.nontrivial(&cr3);
     }
     Ok(())
 }
+#[inline(never)]
+fn switch_then_flush(cr3_b: u64, via_token: bool) -> u64 {
+    use x86_64::registers::control::Cr3;
+    use x86_64::structures::paging::PhysFrame;
+    let (f, low) = Cr3::read_raw();
+    let seen = f.start_address().as_u64() | low as u64;
+    unsafe { Cr3::write_raw(PhysFrame::containing_address(x86_64::PhysAddr::new(cr3_b & !0xfff)), (cr3_b & 0xfff) as u16) };
+    if via_token {
+        MapperFlushAll::new().flush_all();
+    } else {
+        tlb::flush_all();
+    }
+    seen
+}
+
 pub static FLUSHALL_KNOWN: std::sync::atomic::AtomicBool = std::sync::atomic::AtomicBool::new(false);
 
 fn pcid_case(c: &(u8, u16, u64), obs: &mut Obs) -> CaseResult {
@@ -484,7 +511,7 @@ pub fn run(run: &mut Run) {
     let n = run.cases(200_000, 8_000_000);
     run.sub(
         "flush_all",
-        "tlb::flush_all() / MapperFlushAll::flush_all() under generated CR3 contents (< 2^52, edge-biased, PCID bits frequent); oracle: mov r,cr3 then exactly one mov cr3,r writing the value read; non-trivial = CR3 with bits other than frame|PWT|PCD set",
+        "tlb::flush_all() / MapperFlushAll::flush_all() under generated CR3 contents (< 2^52, edge-biased, PCID bits frequent); oracle: mov r,cr3 then exactly one mov cr3,r writing the value read; then, inside one non-inlined function, Cr3::read_raw + Cr3::write_raw to another root/PCID + flush_all: the flush reloads the value CR3 holds at that moment (both writes equal the new value); non-trivial = CR3 with bits other than frame|PWT|PCD set",
         n,
         (prop_oneof![u64_edge(), (phys(), any::<u16>()).prop_map(|(p, l)| (p & !0xfff) | (l as u64 & 0xfff))], any::<bool>()),
         flush_all_case,
